@@ -97,6 +97,18 @@ Definition x_cmp (ta : ity) (pata : pattern) (tb : ity) (patb : pattern) (va vb 
   | _, _ => [TZ UB]
   end.
 
+(* kind 3: an mdspan over USER layouts built from these extents.  size() / empty() over a non-unique layout (every index -> offset 0), where the
+   index space may be larger than any span; and the six observers forwarded from three layouts whose answers are fixed bits: observer k
+   (is_unique, is_exhaustive, is_strided, is_always_unique, is_always_exhaustive, is_always_strided = 0..5) answers bit j of k + 1 on layout j,
+   so any two observers differ on some layout *)
+Definition view_flags : list bool :=
+  flat_map (fun j => map (fun k => Z.testbit (k + 1) j) [0; 1; 2; 3; 4; 5]) [0; 1; 2].
+Definition x_view (t : ity) (pat : pattern) (vals : list Z) : list tval :=
+  match bind (ext_from_all t pat vals) all_extents with
+  | UB => [TZ UB]
+  | Ok es => [TZ (Ok (size_impl t es)); TB (Ok [empty_impl es]); TL (Ok es); TB (Ok view_flags)]
+  end.
+
 (* ---- family V: conversions and equality ------------------------------------------------------------ *)
 Definition lkind_of_nat (n : nat) : lkind :=
   match n with 0 => KLeft | 1 => KRight | 2 => KStride | 3 => KLPad | _ => KRPad end%nat.
